@@ -72,6 +72,10 @@ def c13(tier):
         for level in ((1, 2, 3) if c["pop"] != "nest" else (0, 1, 2, 3)):
             reqs.append({"op": "compile", "id": "%s|%d|%d" % (c["id"], c["w"], level), "prog": c["prog"], "w": c["w"],
                          "level": level, "input": c["input"], "execute": halts})
+        # "levels above 3 behave like level 3" (C01): the same store key as level 3
+        for level in (4, 9):
+            reqs.append({"op": "compile", "id": "%s|%d|%d" % (c["id"], c["w"], 3), "prog": c["prog"], "w": c["w"],
+                         "level": level, "input": c["input"], "execute": 0, "alias": 1})
     rw = replay_witness()
     if rw and "prog" in rw and "level" in rw:
         reqs = [{"op": "compile", "id": "replay|%d|%d" % (rw["w"], rw["level"]), "prog": rw["prog"], "w": rw["w"],
